@@ -41,7 +41,8 @@ CONSTANTS
   FALLBACK,      \* subset of BOOLEAN: is a fallback port configured (WithTLSPortPolicy)
   DEV_ImplicitDot, DEV_NoRsetAfterDataReject, DEV_ContinueAfterRsetFail,
   DEV_LeakOnDialError, DEV_QuitFailureLeavesConn, DEV_NoDeadlineInDial,
-  DEV_NoopBeforeDeadline, DEV_WindowStaysOpen, DEV_FallbackInClear
+  DEV_NoopBeforeDeadline, DEV_WindowStaysOpen, DEV_FallbackInClear, DEV_DialKeepsConnection,
+  REDIAL         \* subset of BOOLEAN: the Client first dials with TLS policy none, then the policy of the scenario is set and it dials again
 
 VARIABLES cl,    \* client state (record)
           env,   \* environment bookkeeping: fault budget, history, predicted projection
@@ -197,10 +198,10 @@ Reveals(mch, j) == (mch \in {"PLAIN", "XOAUTH2"} /\ j = 0) \/ (mch = "LOGIN" /\ 
 Cfgs ==
   {[op |-> OP, nr |-> nr, enc8 |-> e8, rf |-> rf, caps |-> cs, dsn |-> d, nonoop |-> nn, cs |-> rot,
     policy |-> pol, authtype |-> at, noenc |-> NoEncType(at), hostkind |-> hk, logauth |-> la,
-    debug |-> (at # "NOAUTH"), logger |-> lg, fallback |-> fb, starttls |-> st, authlist |-> al, hs |-> hs, caps2 |-> c2] :
+    debug |-> (at # "NOAUTH"), logger |-> lg, fallback |-> fb, starttls |-> st, authlist |-> al, hs |-> hs, caps2 |-> c2, redial |-> rd] :
      nr \in [1..N -> 1..MAXR], e8 \in [1..N -> ENC8], rf \in [1..N -> {"ok"} \cup RENDERKINDS],
      cs \in CAPSETS, d \in DSNS, nn \in NONOOP, rot \in CODESETS, pol \in POLICIES, at \in AUTHTYPES,
-     hk \in HOSTKINDS, la \in LOGAUTH, st \in STARTTLSADV, al \in AUTHLISTS, hs \in HANDSHAKES, c2 \in CAPS2, lg \in LOGGERS, fb \in FALLBACK}
+     hk \in HOSTKINDS, la \in LOGAUTH, st \in STARTTLSADV, al \in AUTHLISTS, hs \in HANDSHAKES, c2 \in CAPS2, lg \in LOGGERS, fb \in FALLBACK, rd \in REDIAL}
 
 (* what the server puts into an EHLO reply *)
 Advertised(enc) ==
@@ -210,7 +211,7 @@ Advertised(enc) ==
 
 Init ==
   /\ cfg \in Cfgs
-  /\ cl = [pc |-> "dial", m |-> 1, r |-> 1, ext |-> {}, dead |-> FALSE, rej |-> <<>>,
+  /\ cl = [pc |-> IF cfg.redial THEN "preDial" ELSE "dial", m |-> 1, r |-> 1, ext |-> {}, dead |-> FALSE, rej |-> <<>>,
            dl |-> [i \in 1..N |-> FALSE], se |-> [i \in 1..N |-> NoErr], top |-> "",
            dotOpen |-> 0, tls |-> FALSE, armed |-> FALSE, authWin |-> FALSE, authOver |-> FALSE,
            mech |-> "", astep |-> 0]
@@ -229,6 +230,21 @@ DialFail(o) == IF DEV_LeakOnDialError \/ Raw THEN o ELSE CloseConn(o)
 
 (* client.go:1027: dial the primary port; when that fails and a fallback port is configured, dial *)
 (* the fallback port.  The environment may refuse the primary port (class "refuse").             *)
+(* a configuration change between two dials: the Client is dialled with TLS policy none (no faults), the *)
+(* policy of the scenario is set, and the operation of the scenario starts - its dial must open a new   *)
+(* connection that honours the new policy.  With DEV_DialKeepsConnection the second dial returns at     *)
+(* once because the Client is connected already, and the send runs on the old cleartext connection.     *)
+PreDial ==
+  /\ cl.pc = "preDial"
+  /\ UNCHANGED cfg
+  /\ LET o1 == ObsAll(obs, << [ev |-> "setpolicy", policy |-> "none"], [ev |-> "call", op |-> "Dial"], [ev |-> "open"] >>)
+         o2 == Observe(SetDl(o1, TRUE), [ev |-> "greet", cls |-> "ok", early |-> FALSE, code |-> 220])
+         x  == XO(o2, "EHLO", 0, 1, <<>>, FALSE, "", OkChoice, SetToSeq(Advertised(FALSE)), 250)
+         o3 == ObsAll(SetDl(x.obs, FALSE), << [ev |-> "ret", op |-> "Dial", err |-> FALSE, elapsed |-> "within"],
+                                              [ev |-> "setpolicy", policy |-> cfg.policy] >>)
+     IN /\ obs' = o3 /\ env' = x.env
+        /\ cl' = [cl EXCEPT !.pc = IF DEV_DialKeepsConnection THEN "dialOK" ELSE "dial", !.ext = Advertised(FALSE)]
+
 DialConnect ==
   /\ cl.pc = "dial"
   /\ UNCHANGED cfg
@@ -672,7 +688,7 @@ FinalRet ==
   /\ Goto("done")
   /\ UNCHANGED <<env, cfg>>
 
-Next == \/ DialConnect \/ ImplicitHandshake \/ ImplicitFallback \/ ReadGreeting \/ CmdEhlo \/ CmdHelo \/ PolicyDecision \/ CmdStartTLS \/ Handshake
+Next == \/ PreDial \/ DialConnect \/ ImplicitHandshake \/ ImplicitFallback \/ ReadGreeting \/ CmdEhlo \/ CmdHelo \/ PolicyDecision \/ CmdStartTLS \/ Handshake
         \/ CmdEhloAfterTLS \/ AuthSelect \/ AuthStart \/ AuthMsg \/ AuthAbort \/ AuthQuit \/ DialOK \/ DialRet
         \/ ResetBegin \/ ResetNoop \/ ResetRset \/ SendBegin \/ Noop0 \/ MsgStart \/ CmdMail \/ CmdRcpt \/ CmdData \/ WriteContent
         \/ CloseData \/ PostNoop \/ PostRset \/ FailRset \/ NextMsg \/ SendRet \/ CmdQuit \/ FinalRet
